@@ -27,9 +27,14 @@ class Guard:
     loop: str | None = None  # the guard is per iteration of the loop whose iterator contains this text
     consults: set[str] = field(default_factory=set)  # fallback: a raise-guard must read these names
     why: str = ""
+    refuse_none: bool = False  # a `return None` counts as the refusal (pattern matchers), not as a normal completion
 
 
-def _pruned_reach(g: CFG, env: dict[str, Any], start: int, stop: set[int] | None = None) -> tuple[set[int], bool]:
+def _is_return_none(s: ast.AST | None) -> bool:
+    return isinstance(s, ast.Return) and (s.value is None or (isinstance(s.value, ast.Constant) and s.value.value is None))
+
+
+def _pruned_reach(g: CFG, env: dict[str, Any], start: int, stop: set[int] | None = None, refuse_none: bool = False) -> tuple[set[int], bool]:
     """Nodes reachable from *start* when edges contradicted by env are removed.
     Second result: whether some env-relevant test could not be decided (DEPENDS on free atoms
     that mention an env key)."""
@@ -39,6 +44,8 @@ def _pruned_reach(g: CFG, env: dict[str, Any], start: int, stop: set[int] | None
         a = stack.pop()
         if stop and a in stop and a != start:
             continue
+        if refuse_none and _is_return_none(g.stmts.get(a)):
+            continue  # a refusal: the function gives up here
         for b, lab in g.succ.get(a, []):
             if lab is not None and lab[0] is not None:
                 verdict, _free = fires(lab[0], env)
@@ -68,7 +75,7 @@ def check_guard(ctx: Ctx, sp: Guard) -> Ob:
     g = ctx.memo("cfg:" + sp.func, lambda: build_cfg(f.node))
     inst = sp.label
     if sp.loop is None:
-        reach, _ = _pruned_reach(g, sp.env, ENTRY)
+        reach, _ = _pruned_reach(g, sp.env, ENTRY, refuse_none=sp.refuse_none)
         escaped = EXIT in reach
         start_desc = "the function"
     else:
@@ -86,7 +93,7 @@ def check_guard(ctx: Ctx, sp: Guard) -> Ob:
             esc_here = False
             reach_here = set()
             for st in starts:
-                r, _ = _pruned_reach(g, sp.env, st, stop={ln})
+                r, _ = _pruned_reach(g, sp.env, st, stop={ln}, refuse_none=sp.refuse_none)
                 reach_here |= r
                 # the iteration completes if it gets back to the header or leaves the function normally
                 if ln in r or EXIT in r:
@@ -99,6 +106,8 @@ def check_guard(ctx: Ctx, sp: Guard) -> Ob:
                 break
         start_desc = f"an iteration of the loop over `{sp.loop}`"
     raised = sorted({c for n in reach if n in g.stmts and (c := _raise_class(g.stmts[n]))})
+    if sp.refuse_none and any(_is_return_none(g.stmts.get(n)) for n in reach):
+        raised = raised + ["return None"]
     if not escaped:
         if sp.exc is not None and sp.exc not in raised:
             return viol("R8", sp.func, inst, f"under {_fmt(sp.env)} the function raises {raised}, not the documented {sp.exc}", f.loc)
@@ -210,6 +219,28 @@ GUARDS_REGION_GRAPH = [
     Guard(RG, "not-covering", {"isinstance(node, RegionNode)": False, "isinstance(node, PartitionNode)": True, "isinstance(rgn, RegionNode)": True, "scope != node.scope": True}, loop="nodes_inputs", consults={"scope"}, why="the children of a partition must cover its scope"),
     Guard(RG, "overlapping", {"isinstance(node, RegionNode)": False, "isinstance(node, PartitionNode)": True, "isinstance(rgn, RegionNode)": True, "scope != node.scope": False, "sum((len(sc) for sc in scopes)) != len(scope)": True}, loop="nodes_inputs", consults={"scopes"}, why="the children of a partition must be pairwise disjoint"),
 ]
+
+
+_TWO = ("a", "b")
+_ONE = ("a",)
+COMP = "cirkit.backend.torch.compiler."
+
+
+def _matcher_guards(func: str, idx: str) -> list[Guard]:
+    """a chain pattern may only be fused when every entry but the root feeds exactly one module and
+    every entry but the last reads exactly one: otherwise the fused module replaces a value other
+    modules still need (fan-out) or drops an input (fan-in)."""
+    out = []
+    for k, n in ((1, 2), (1, 3), (2, 3)):
+        out.append(Guard(func, f"fan-out,entry={k}/{n}", {idx: k, "num_entries": n, "out_nodes": _TWO, "in_nodes": _ONE}, loop="range(num_entries)", refuse_none=True,
+                         why="a non-root pattern entry with more than one consumer must not be fused into the match"))
+    for k, n in ((0, 2), (0, 3), (1, 3)):
+        out.append(Guard(func, f"fan-in,entry={k}/{n}", {idx: k, "num_entries": n, "in_nodes": _TWO, "out_nodes": _ONE}, loop="range(num_entries)", refuse_none=True,
+                         why="a pattern entry other than the last with more than one input must not be fused into the match"))
+    return out
+
+
+GUARDS_MATCHERS = _matcher_guards(COMP + "_match_layer_pattern", "lid") + _matcher_guards(COMP + "_match_parameter_nodes_pattern", "nid")
 
 
 def run_guards(ctx: Ctx, guards: list[Guard]) -> list[Ob]:
